@@ -979,4 +979,42 @@ example :
     cutScheme s ≠ none ∧ isFQM (parseModelPath s).toName = true ∧ isFQM (parseName s) = true := by decide
 
 
+/-! ## 20. the empty digest under any models directory -/
+
+
+/-- **The empty digest under any models directory**: `GetBlobsPath("")` is the blobs directory of `Clean(models)` — the
+    components of `Clean(models)` followed by exactly `blobs`. -/
+theorem blob_path_empty_anyroot (root : Bytes) (hne : root ≠ []) :
+    getBlobsPath root [] = some (renderPath (isRooted root) (rootStack root ++ [sBlobs])) := by
+  have hroot : root.isEmpty = false := by simpa [List.isEmpty_iff] using hne
+  have hj : joinWith cSlash [root, sBlobs, []] = root ++ cSlash :: (sBlobs ++ [cSlash]) := by simp [joinWith]
+  have hne2 : (root ++ cSlash :: (sBlobs ++ [cSlash])).isEmpty = false := by
+    cases root with
+    | nil => exact absurd rfl hne
+    | cons x xs => rfl
+  have hhead : (root ++ cSlash :: (sBlobs ++ [cSlash])).head? = root.head? := by
+    cases root with
+    | nil => exact absurd rfl hne
+    | cons x xs => rfl
+  have hsb : splitOn cSlash (sBlobs ++ [cSlash]) = [sBlobs, []] := by decide
+  have hstep : ∀ st, cleanStep (root.head? == some cSlash) (cleanStep (root.head? == some cSlash) st sBlobs) [] = sBlobs :: st := by
+    intro st
+    have h1 : cleanStep (root.head? == some cSlash) st sBlobs = sBlobs :: st :=
+      cleanStep_clean _ st sBlobs safe_blobs.toClean
+    rw [h1]; simp [cleanStep]
+  simp only [getBlobsPath, List.isEmpty_nil, Bool.not_true, Bool.false_and, Bool.false_eq_true, if_false]
+  congr 1
+  show pathJoin [root, sBlobs, colonToDash []] = _
+  unfold pathJoin
+  simp only [colonToDash, List.map_nil, List.dropWhile, hroot]
+  rw [hj]
+  unfold clean
+  simp only [hne2, Bool.false_eq_true, if_false, hhead, splitOn_append_sep, hsb, List.foldl_append, List.foldl_cons,
+    List.foldl_nil, hstep]
+  unfold renderPath rootStack isRooted
+  simp only [List.reverse_cons]
+
+example : getBlobsPath [46, 47, 120, 47, 46, 46, 47, 109, 47, 47] [] = some [109, 47, 98, 108, 111, 98, 115] := by decide
+
+
 end OllamaVerif.C13
